@@ -167,6 +167,27 @@ pub fn history_props(id: &str) -> Option<HistoryProp> {
                 },
                 quick: 8000,
                 thorough: 200_000,
+            },
+            // "all dimensions": a few hundred to a few thousand components (values beyond one LMDB page, quantised
+            // vectors of 5-32 words, every vector-width threshold a codec could have)
+            HistoryTier {
+                label: "C05-wide",
+                gen: GenCfg {
+                    classes: vec![ValueClass::Bits, ValueClass::Uniform, ValueClass::Extreme],
+                    dims: vec![(1, vec![300, 511, 512, 513, 767, 960, 961, 1023, 1024, 1025, 1536, 2047, 2048, 3000])],
+                    first_ops: (2, 12),
+                    later_ops: (0, 8),
+                    rounds: (1, 3),
+                    id_pool: (3, 12),
+                    max_indexes: 1,
+                    abort_pct: 20,
+                    build_pct: 70,
+                    op_weights: [55, 30, 10, 3, 0],
+                    threads: vec![1, 4],
+                    ..GenCfg::small()
+                },
+                quick: 400,
+                thorough: 10_000,
             }],
             nontrivial: |_h, st| st.get("overwrites") > 0 && st.get("deletes") > 0 && st.get("builds_ok") > 0,
             assumptions: base_assume,
@@ -508,7 +529,14 @@ fn script_gen_base() -> ScriptGen {
         split_after: vec![None, Some(1), Some(2)],
         n_trees: vec![None, Some(1), Some(2)],
         edge_ids: false,
+        bulk: None,
     }
+}
+
+/// Scripts that start with thousands of additions to index 0 (then a build and a commit), optionally followed by
+/// as many overwrites or deletions, before the generated steps.
+fn script_gen_bulk(lo: usize, hi: usize) -> ScriptGen {
+    ScriptGen { id_pool: (hi, hi + 200), bulk: Some((lo, hi)), steps: (3, 10), ..script_gen_base() }
 }
 
 fn c06_nontrivial(s: &ScriptSpec, st: &CaseStats) -> bool {
@@ -550,7 +578,11 @@ pub fn script_props(id: &str) -> Option<ScriptProp> {
                    UnmatchingDistance accordingly, inside the write txn and from a fresh read txn after commit/abort. Non-trivial = \
                    a build succeeded and (a no-op directly follows a build, or a stale-making op precedes a later commit)",
             cfg: ScriptCfg { staleness: true, ..Default::default() },
-            tiers: vec![ScriptTier { label: "C06-script", gen: ScriptGen { edge_ids: true, ..script_gen_base() }, quick: 40_000, thorough: 400_000 }],
+            tiers: vec![
+                ScriptTier { label: "C06-script", gen: ScriptGen { edge_ids: true, ..script_gen_base() }, quick: 40_000, thorough: 400_000 },
+                // more than 4096 pending updates between two builds
+                ScriptTier { label: "C06-bulk", gen: script_gen_bulk(4097, 6000), quick: 32, thorough: 500 },
+            ],
             nontrivial: c06_nontrivial,
             assumptions: base_assume,
         }),
@@ -617,6 +649,20 @@ pub fn script_props(id: &str) -> Option<ScriptProp> {
                 },
                 quick: 30_000,
                 thorough: 300_000,
+            },
+            // more than 1024 items re-encoded by one metric change
+            ScriptTier {
+                label: "C18-bulk",
+                gen: ScriptGen {
+                    n_indexes: (1, 2),
+                    adjacent: true,
+                    dims: vec![3, 20, 65],
+                    steps: (3, 10),
+                    weights: [10, 0, 0, 4, 0, 0, 0, 0, 0, 10, 0, 20, 5, 1, 0],
+                    ..script_gen_bulk(1025, 2600)
+                },
+                quick: 24,
+                thorough: 400,
             }],
             nontrivial: |_s, st| st.get("bq_to_float_unaligned_dims") > 0 || st.get("metric_change_with_pending_updates") > 0,
             assumptions: base_assume,
@@ -694,11 +740,13 @@ fn c06_exhaustive(report: &mut Report, maxlen: usize, cfg: &ScriptCfg) -> Result
     std::thread::scope(|sc| {
         for _ in 0..crate::runner::workers() {
             sc.spawn(|| loop {
-                let i = counter.fetch_add(1, std::sync::atomic::Ordering::Relaxed);
-                if i >= all.len() || failure.lock().unwrap().is_some() {
+                // every sequence twice: with a fresh Writer per call and with one Writer value for the whole script
+                let j = counter.fetch_add(1, std::sync::atomic::Ordering::Relaxed);
+                if j >= 2 * all.len() || failure.lock().unwrap().is_some() {
                     break;
                 }
-                let spec = ScriptSpec { indexes: vec![index.clone()], steps: all[i].iter().map(|k| kinds[*k].clone()).collect() };
+                let i = j / 2;
+                let spec = ScriptSpec { indexes: vec![index.clone()], steps: all[i].iter().map(|k| kinds[*k].clone()).collect(), reuse_writers: j % 2 == 1 };
                 let mut st = CaseStats::default();
                 match exec_script(&spec, cfg, &mut st) {
                     Ok(()) | Err(Fail::Discard(_)) => {
@@ -716,13 +764,16 @@ fn c06_exhaustive(report: &mut Report, maxlen: usize, cfg: &ScriptCfg) -> Result
             });
         }
     });
-    report.acc.evaluations += all.len() as u64;
+    report.acc.evaluations += 2 * all.len() as u64;
     for k in 0..nontrivial.load(std::sync::atomic::Ordering::Relaxed) {
         report.acc.nontrivial_hashes.insert(0x0C06_0000_0000_0000 | k);
     }
     report.acc.extra.insert(
         "exhaustive_subspaces".into(),
-        json!([format!("all {} sequences of length <= {maxlen} over 13 operation kinds on one index (from an empty database)", all.len())]),
+        json!([format!(
+            "all {} sequences of length <= {maxlen} over 13 operation kinds on one index (from an empty database), each run with a fresh Writer per call and with one Writer value reused throughout",
+            all.len()
+        )]),
     );
     match failure.into_inner().unwrap() {
         Some(x) => Err(x),
